@@ -131,10 +131,13 @@ C16EnvsQuick ==
   {Env(c, s, NoLoss, ParDefault, Len(s[1].items) + 1) : c \in ChainsPR, s \in RegularQuick \cup Specials}
   \cup {Env(c, s, NoLoss, p, 2) : c \in ChainsPR, s \in {Paged(3, 2, 1, FALSE), Paged(4, 2, 2, TRUE), S6}, p \in {Par1, Par2}}
   \cup {Env(c, s, NoLoss, ParCallerPR, 2) : c \in Chains5, s \in {Paged(3, 2, 1, FALSE)}}
+  \* the boundary values of the requested page size go out as given (0: "how many are there?", RFC 2696 section 3)
+  \cup {Env(c, s, NoLoss, ParDefault, ps) : c \in ChainsPR, s \in {Paged(3, 2, 1, FALSE)}, ps \in {0, 2147483647}}
   \cup UNION {{Env(c, s, l, Par1, 1000) : l \in AllLoss(s) \ {NoLoss}} : c \in ChainsPR, s \in {Paged(3, 2, 1, FALSE), S6}}
 C16EnvsThorough ==
   {Env(c, s, NoLoss, p, Len(s[1].items) + 1) : c \in ChainsPR, s \in RegularThorough \cup Specials \cup Multis, p \in {ParDefault, Par1, Par2}}
   \cup {Env(c, s, NoLoss, ParCallerPR, 2) : c \in Chains5, s \in {Paged(3, 2, 1, FALSE), S9}}
+  \cup {Env(c, s, NoLoss, ParDefault, ps) : c \in ChainsPR, s \in {Paged(3, 2, 1, FALSE), S6}, ps \in {0, 2147483647}}
   \cup UNION {{Env(c, s, l, Par1, 1000) : l \in AllLoss(s) \ {NoLoss}} : c \in ChainsPR, s \in RegularQuick \cup Specials}
 
 NoEnvs == {}
